@@ -33,6 +33,8 @@ rule("C19.i", "the boundaries of the coarse intervals of a sub-grid span its who
               "the coarse step) - no fine step is lost", floor=1, props=["C19", "C13"])
 rule("C19.j", "the points of a grid built from start / end / freq begin at the grid start: the date range is opened with the start when it "
               "does not begin there (calendar-anchored frequencies 'W', 'MS' ... begin at the first anchor after the start)", floor=1)
+rule("C19.k", "an extreme timestamp (pd.Timestamp.max / .min, used for 'valid for ever') never has a zone attached or time added: west of "
+              "UTC the localised value lies beyond the representable range and the interval silently becomes empty", floor=0)
 NO_STRIP = "a date that reaches the zone case analysis has not passed a conversion that silently drops its zone (.values on a frame " \
            "column, a datetime64 cast, tz_localize(None)) - neither in the function nor where the constructor stored it"
 rule("C19.h", "interval data and asset windows: " + NO_STRIP, floor=2)
@@ -174,6 +176,24 @@ def _zone_cases(ctx):
                        "zone, i.e. the instant shifts by the offset between the zones" % (
                            au.short(recv, 50), au.short(zone, 30), " (its own zone is stripped first with tz_localize(None))" if stripped else ""),
                        node=n, ok_detail=proven or "")
+                def _extremes(e, at):
+                    return [x for x in ctx.origins(fn).nodes(e, at) if isinstance(x, ast.Attribute) and x.attr in ("max", "min")
+                            and isinstance(x.value, ast.Attribute) and x.value.attr == "Timestamp"]
+                core = _strip_ts(recv)
+                if isinstance(core, ast.Subscript) and isinstance(core.value, ast.Name) and au.const_str(core.slice) is not None:
+                    # an element of a dictionary: only what was stored under that key
+                    extreme = []
+                    for d in ctx.flow(fn).defs(core.value.id, st):
+                        if d.kind == "store" and isinstance(d.index, str) and d.index.replace('"', "'") == au.U(core).replace('"', "'") and d.value is not None:
+                            extreme += _extremes(d.value, d.node)
+                else:
+                    extreme = _extremes(recv, st)
+                if extreme:
+                    ctx.ob("C19.k", fn, au.short(n, 80), False,
+                           "%s can be pd.Timestamp.%s (line %s, the end of an interval that is 'valid for ever'); attaching a zone west of UTC "
+                           "moves it beyond the largest representable instant - the comparison `time points < end` is then false everywhere "
+                           "and the value is assigned to no step (grid in America/New_York, {'start': .., 'values': 3}: [nan nan])" % (
+                               au.short(recv, 40), extreme[0].attr, extreme[0].lineno), node=n)
                 # ---- no zone-stripping conversion upstream of the value
                 srid = {"C20.h": "C20.i", "C19.g": "C19.h", "C15.g": "C15.h"}.get(my_rid)
                 if srid is None:
@@ -194,7 +214,7 @@ def _zone_cases(ctx):
     return counts
 
 
-@analysis("intervals", ["C19.a", "C19.b", "C19.c", "C19.e", "C19.g", "C15.g", "C20.h", "C11.i", "C19.h", "C20.i", "C15.h", "C19.i", "C19.j"])
+@analysis("intervals", ["C19.a", "C19.b", "C19.c", "C19.e", "C19.g", "C15.g", "C20.h", "C11.i", "C19.h", "C20.i", "C15.h", "C19.i", "C19.j", "C19.k"])
 def run(ctx):
     p = ctx.p
     zc = _zone_cases(ctx)
